@@ -363,7 +363,11 @@ class DataSource(metaclass=ABCMeta):
         if not target_only:
             results.extend(self.query(filters + [Filter('source_ref', '=', obj_id)]))
         if not source_only:
-            results.extend(self.query(filters + [Filter('target_ref', '=', obj_id)]))
+            # (a relationship from the object to itself was found above)
+            results.extend(
+                r for r in self.query(filters + [Filter('target_ref', '=', obj_id)])
+                if target_only or r['source_ref'] != obj_id
+            )
 
         return results
 
